@@ -109,16 +109,22 @@ def nameKey (n m : Int) : Int × Int × Int × Int :=
 /-- key under which `zernikes_to_magnitude_angle_nmkey` collects the `+m` and `-m` terms -/
 def magangKey (n m : Int) : Int × Int := (n, iabs m)
 
-/-- positions of a coefficient list grouped by `magangKey`, groups in order of first appearance, positions ascending
-    (the order in which `defaultdict.append` sees them: the first member of a pair is the first argument of `arctan2`) -/
+/-- the `magangKey`s of a coefficient list in order of first appearance (the insertion order of the `defaultdict`) -/
+def firstKeys : List (Int × Int) → List (Int × Int)
+  | [] => []
+  | p :: rest => magangKey p.1 p.2 :: (firstKeys rest).filter (fun k => k ≠ magangKey p.1 p.2)
+
+/-- the positions of the list whose term has key `k`, ascending (the order in which `append` sees them: the first member of
+    a pair is the first argument of `arctan2`) -/
+def positionsOf (l : List (Int × Int)) (k : Int × Int) : List Nat :=
+  (List.range l.length).filter fun i => match l[i]? with
+    | some p => magangKey p.1 p.2 = k
+    | none => false
+
+/-- what `zernikes_to_magnitude_angle_nmkey` groups: one entry per key, in order of first appearance, with the positions of its terms
+    (written as a specification — quadratic — not as the dict algorithm) -/
 def groupByKey (l : List (Int × Int)) : List ((Int × Int) × List Nat) :=
-  let rec ins (k : Int × Int) (i : Nat) : List ((Int × Int) × List Nat) → List ((Int × Int) × List Nat)
-    | [] => [(k, [i])]
-    | (k', is) :: rest => if k' = k then (k', is ++ [i]) :: rest else (k', is) :: ins k i rest
-  let rec go (i : Nat) (acc : List ((Int × Int) × List Nat)) : List (Int × Int) → List ((Int × Int) × List Nat)
-    | [] => acc
-    | (n, m) :: rest => go (i + 1) (ins (magangKey n m) i acc) rest
-  go 0 [] l
+  (firstKeys l).map fun k => (k, positionsOf l k)
 
 /-! ## run-time of the translated Python fragments -/
 namespace Py
